@@ -691,10 +691,10 @@ Definition tv_tail (E : env) (u : user) (shared : bool) : M (user * bool * optio
     let input := trim_space raw in
     if c_onetime (e_cfg E) then
       (if beqb (u_totp_last u) input then ret (u, shared, Some TRepeated) else
+       if negb (totp_ok E (u_totp u) raw) then ret (u, shared, Some TInvalid) else
        let u' := u <| u_totp_last := input |> in
        store_back u' shared ;;;
-       if negb (totp_ok E (u_totp u) raw) then ret (u', shared, Some TInvalid)
-       else ret (u', shared, Some TSuccess))
+       ret (u', shared, Some TSuccess))
     else
       (if negb (totp_ok E (u_totp u) raw) then ret (u, shared, Some TInvalid)
        else ret (u, shared, Some TSuccess)).
@@ -757,11 +757,12 @@ Proof.
     destruct (c_onetime (e_cfg E)).
     + destruct (beqb (u_totp_last u) (trim_space code)).
       { left. inversion E2; subst. apply NO; [discriminate|reflexivity]. }
+      destruct (totp_ok E (u_totp u) code) eqn:Tk; cbn [negb] in E2.
+      2:{ left. inversion E2; subst. apply NO; [discriminate|reflexivity]. }
       apply bind_inv in E2 as [(a & h2 & E1 & K)|[(e & E1 & ->)|(E1 & ->)]];
         apply store_back_spec in E1 as [Hr S2]; try discriminate Hr.
-      destruct (totp_ok E (u_totp u) code) eqn:Tk; cbn [negb] in K; inversion K; subst.
-      * right. left. repeat split; auto. eexists. split; [reflexivity|]. split; reflexivity.
-      * left. apply NO; [discriminate|exact S2].
+      inversion K; subst.
+      right. left. repeat split; auto. eexists. split; [reflexivity|]. split; reflexivity.
     + destruct (totp_ok E (u_totp u) code) eqn:Tk; cbn [negb] in E2; inversion E2; subst.
       * right. left. repeat split; auto. eexists. split; [reflexivity|]. split; reflexivity.
       * left. apply NO; [discriminate|reflexivity].
